@@ -19,7 +19,7 @@ ID = "C07"
 AREAS = ["parse"]
 RULE = ("structured: single-level commands with 2-5 options whose actions are drawn from {Set, Append, Count, SetTrue, "
         "SetFalse} (short and/or long names, num_args 1 / 2 / 1..3 / 0..1 with default-missing / 1.., optional "
-        "delimiter), override relations drawn independently (self, one-directional a->b, b->a, mutual, none) and "
+        "delimiter; 20% of the SetTrue/SetFalse options take an optional value, num_args 0..1: --flag, --flag=true|false, -f=false, -f false), override relations drawn independently (self, one-directional a->b, b->a, mutual, none) and "
         "args_override_self toggled, 0-2 positionals and an optional multiple-group; the argv is rendered from an "
         "invocation in which one target argument occurs n times, n from {0,1,2,3,4,5,10,254,255,256,257,299,300} or "
         "uniform 0..300, interleaved (shuffled / blocks / sandwiched) with 0-3 occurrences of every other argument and "
@@ -118,10 +118,12 @@ LEVEL_TEXT = ("Machine-checked theorems (Coq 8.16, closed under the global conte
               "(C07_other_models_takes_values); Gen/GateSites.v: the 63 assert!/panic! sites of debug_asserts.rs in source order "
               "are exactly the classified ones (C07_gate_sites_covered: a check clap adds to its configuration gate breaks "
               "the lemma), assert_arg is its core && the interpreted checker! table of assert_arg_flags "
-              "(C07_assert_arg_flags_table), assert_app implies the assert_app_flags table (C07_app_flags_table); for the configuration gate the model is STRICTER than the source "
-              "for SetTrue/SetFalse (source: num_args(0..=1) and any value parser allowed): C07_action_gate_table states the "
-              "exact relation, C07_action_gate_table_refuted is the witness that equality fails, C07_gate_implies_source "
-              "that whatever the model's gate accepts passes the source's assertions.  A source edit that changes one of "
+              "(C07_assert_arg_flags_table), assert_app implies the assert_app_flags table (C07_app_flags_table); for the configuration gate (max_num_args, value_type_id) "
+              "the comparison found the model stricter than the source for SetTrue/SetFalse (source: num_args(0..=1) and any "
+              "value parser allowed); Parse/Cmd.v was repaired to follow action.rs, C07_action_gate_table is now the equality "
+              "with the table for every action, C07_action_takes_value_arg says occurrences can carry a value exactly for "
+              "Set/Append/SetTrue/SetFalse, C07_gate_implies_source that whatever the model's gate accepts passes the source's "
+              "assertions.  A source edit that changes one of "
               "these facts breaks the named lemma (gate failure => VIOLATION ... no-failing-input-found).  The model "
               "is tied to clap_builder by running the extracted model and the real crate on the same generated "
               "commands and argument vectors on every check (the concrete lines of the proofs' non-vacuity examples are "
@@ -134,11 +136,10 @@ LEVEL_NOTE = ("Trusted: Coq kernel, extraction, OCaml driver, Rust harness, gene
               "differential outside them: require_equals, hyphen-value / negative-number arguments, `last` / "
               "allow_missing_positional / low-index multiple positionals (positional counter correction), inferred long "
               "prefixes, positionals before a subcommand name, the globals merge across levels, ignore_errors; the typed "
-              "getters of the real ArgMatches are oracle-only (get_count/get_flag have a modelled view).  Known model "
-              "restriction found by the table comparison: a SetTrue/SetFalse argument with num_args(0..=1) or a non-bool "
-              "value parser is accepted by clap but INVALID in the model (Parse/Cmd.v action_max_num_args / "
-              "action_value_type); no generator produces such arguments, so the class of all theorems quantifying over "
-              "`valid`/assert_app commands excludes them (docs/notes/translators.md).")
+              "getters of the real ArgMatches are oracle-only (get_count/get_flag have a modelled view).  The model "
+              "restriction found by the table comparison (SetTrue/SetFalse with num_args(0..=1) or a non-bool value parser "
+              "were INVALID in the model) is repaired; the structured stream generates such flags and the 8 probe lines are "
+              "corpus cases (docs/notes/translators.md).")
 
 chance = gen_cmd.chance
 pick = gen_cmd.pick
@@ -169,7 +170,12 @@ def action_of(a):
 
 
 def takes_value(a):
-    if action_of(a) in FLAG_ACTIONS or action_of(a) in ("help", "version", "helpshort", "helplong"):
+    act = action_of(a)
+    if act in ("settrue", "setfalse"):
+        # action.rs: SetTrue / SetFalse allow num_args(0..=1) (ValueRange::OPTIONAL): `--flag=false` stores false
+        num = a.get("num")
+        return num is not None and (num[1] is None or num[1] > 0)
+    if act in FLAG_ACTIONS or act in ("help", "version", "helpshort", "helplong"):
         return False
     num = a.get("num")
     return num is None or num[1] is None or num[1] > 0
@@ -242,8 +248,12 @@ def conventional(cmd):
             return False
         if not is_opt(a) and (a.get("num") is not None or action_of(a) != "set" or a.get("delim") or a.get("index")):
             return False
-        if a.get("action") in FLAG_ACTIONS and (a.get("num") is not None or a.get("delim") or a.get("dmissing")
-                                                 or a.get("default")):
+        if a.get("action") in FLAG_ACTIONS and (a.get("delim") or a.get("dmissing") or a.get("default")):
+            return False
+        # a flag with an optional value (`num_args(0..=1)`, allowed for SetTrue / SetFalse only) is inside the class: given a
+        # value it stores that value, given none its own literal
+        if a.get("action") in FLAG_ACTIONS and a.get("num") is not None and (
+                a.get("action") == "count" or a["num"] != (0, 1) or "reqeq" in a["flags"]):
             return False
         if a.get("dmissing") and num_of(a)[0] != 0:
             return False
@@ -272,6 +282,8 @@ def scan(cmd, argv):
         a, vals = p
         lo, hi = num_of(a)
         k = len(vals)
+        if action_of(a) in ("settrue", "setfalse") and any(v not in (b"true", b"false") for v in vals):
+            return False     # the bool parser rejects it: an error line, outside the class the fold speaks about
         if lo == hi:
             if k != lo:
                 return False
@@ -711,6 +723,9 @@ def gen_spec(rng, force_target_action=None):
                 a["delim"] = ","
             if chance(rng, 0.08):
                 a["default"] = [b"d"]
+        elif act in ("settrue", "setfalse") and chance(rng, 0.2):
+            # `--flag[=true|false]`: action.rs gives the two flag actions max_num_args = OPTIONAL (0..=1)
+            a["num"] = (0, 1)
         c["args"].append(a)
     ids = [a["id"] for a in c["args"]]
     for a in c["args"]:
@@ -748,6 +763,8 @@ def render_occ(rng, a, force=None):
     lo, hi = num_of(a)
     k = pick(rng, [lo, max(lo, 1), max(lo, 1), (hi if hi is not None else lo + 2)])
     vals = [pick(rng, VALS) for _ in range(k)]
+    if action_of(a) in ("settrue", "setfalse"):
+        vals = [pick(rng, [b"true", b"false", b"false", b"true", b"false", b"no"]) for _ in range(k)]
     if "reqeq" in a["flags"]:
         name = b"--" + a["long"] if how == "long" else b"-" + a["short"].encode()
         return [name + (b"=" + vals[0] if k >= 1 else b"")], None
